@@ -173,9 +173,26 @@ pub fn realise_fb(g: &Graph, salt: u64, arrays: bool) -> (String, Vec<(usize, us
     let mut decorated = false;
     let mut s = String::new();
     let mut z = salt;
+    // a third of the realisations also have bodies that invoke the instances, and name some of the
+    // instances (and plain variables) like declarations of the unit - the block itself, one that
+    // contains it, any other: a variable's *name* is no reference to a declaration
+    let with_bodies = mix(salt ^ 0xb0d1) % 3 == 0;
     for &i in g.order(salt).iter() {
         s.push_str(&format!("FUNCTION_BLOCK fb{}\n", i));
         let mut any = false;
+        let mut taken: Vec<String> = vec![];
+        let mut calls: Vec<String> = vec![];
+        let name_for = |default: String, z: u64, taken: &mut Vec<String>| -> String {
+            if with_bodies && mix(z ^ 0x9a3e) % 3 == 0 {
+                let k = (mix(z ^ 0x51) % g.n as u64) as usize;
+                let n = format!("fb{}", k);
+                if !taken.contains(&n) {
+                    taken.push(n.clone());
+                    return recase(&n, z);
+                }
+            }
+            default
+        };
         for j in 0..g.n {
             if g.adj[i][j] {
                 z = mix(z);
@@ -189,17 +206,28 @@ pub fn realise_fb(g: &Graph, salt: u64, arrays: bool) -> (String, Vec<(usize, us
                     soft.push((i, j));
                     s.push_str(&format!("{}\ninst{}_{} : ARRAY[1..2] OF {};\nEND_VAR\n", kw, i, j, recase(&format!("fb{}", j), z ^ (i * 31 + j) as u64)));
                 } else {
-                    s.push_str(&format!("{}\ninst{}_{} : {};\nEND_VAR\n", kw, i, j, recase(&format!("fb{}", j), z ^ (i * 31 + j) as u64)));
+                    let name = name_for(format!("inst{}_{}", i, j), z, &mut taken);
+                    s.push_str(&format!("{}\n{} : {};\nEND_VAR\n", kw, name, recase(&format!("fb{}", j), z ^ (i * 31 + j) as u64)));
+                    calls.push(name);
                 }
                 // the same edge a second time (two instances of one type): a wide graph, no new cycle
                 if mix(z ^ 0x2e) % 4 == 0 {
                     s.push_str(&format!("VAR\ninst{}_{}b, inst{}_{}c : fb{};\nEND_VAR\n", i, j, i, j, j));
+                    calls.push(format!("inst{}_{}c", i, j));
                 }
                 any = true;
             }
         }
         if !any {
-            s.push_str(&format!("VAR\nleaf{} : INT;\nEND_VAR\n", i));
+            let name = name_for(format!("leaf{}", i), mix(z ^ i as u64), &mut taken);
+            s.push_str(&format!("VAR\n{} : INT;\nEND_VAR\n", name));
+        }
+        if with_bodies {
+            for (k, c) in calls.iter().enumerate() {
+                if mix(z ^ (k as u64 * 977 + i as u64)) % 4 != 0 {
+                    s.push_str(&format!("{}();\n", recase(c, z ^ k as u64)));
+                }
+            }
         }
         s.push_str("END_FUNCTION_BLOCK\n");
     }
